@@ -53,8 +53,8 @@ CHECKS = [
   "Blobs produced by generated single-blob histories; undamaged files must pass validate_blob/validate_index, read_index must report exactly the parser's headers, migrate_blob must preserve every record. One generated damage (truncation inside a record per class, or a flipped byte in one of 15 position classes): validate_blob must reject, recovery_blob (skip off/on) must produce a valid blob with every intact record before the damage (and after it when skipping applies), correct blob_offsets, nothing invented, and a Storage opened on the output must serve every contained record with its original bytes. Enumerated phase: blobs of 1500-2600 records recovered / migrated undamaged for validate_every around 1024 and around the record count, also from a version-0 source (0 -> 1 migration).",
   "Known findings (open): flips in the blob header's version/flags fields and decodable flips in meta bytes are accepted by validate_blob (no checksum covers them); those cases print KNOWN-FINDING and are excluded from the reject clause only."),
  ("C17", "exploration", "cross-version differential against a committed corpus written by the pinned tree, exhaustively enumerated index-presence subsets and mismatch mutations",
-  "9 corpus directories written by the pinned release with recorded answers; for every subset of removed index files and both init modes the current code must reproduce every recorded answer and rebuild byte-identical index files; a bumped blob version must make init fail, a bumped index version must be healed by regeneration, another key size must never yield a successful read.",
-  "Only formats the pinned tree can write; small corpus by construction. The oracle is the old code's recorded behaviour."),
+  "15 corpus directories written by the pinned release with recorded answers (9 small ones, 3 with multi-level B+tree index files, 3 with key sizes 32 / 128 and timestamps above 2^32 / at u64::MAX); for every subset of removed index files and both init modes the current code must reproduce every recorded answer - also with the bloom buffers off-loaded - and rebuild byte-identical index files; a bumped blob version must make init fail, a bumped index version must be healed by regeneration, another key size must never yield a successful read.",
+  "Only formats the pinned tree can write; the corpus was extended twice after seeded changes exposed gaps (tree depth, key sizes). The oracle is the old code's recorded behaviour."),
 ]
 
 def main():
